@@ -47,7 +47,28 @@ func (it *Interp) toA(s *StrV) *Term {
 		t := App(name, SStr, leaves...)
 		it.p.noteInjective(name, t)
 		it.p.noteGroup(fam, name, t)
-		it.strLenTerm(t)
+		if !it.p.lenAx[t.id] {
+			l := it.strLenTerm(t)
+			if s.BoxK == "" && s.BoxT != nil {
+				// proto3: the encoding is empty exactly when every field has its default value
+				allDefault := TTrue
+				for _, lf := range leaves {
+					switch {
+					case lf.sort == SBool:
+						allDefault = And(allDefault, Not(lf))
+					case lf.sort == SInt:
+						allDefault = And(allDefault, Eq(lf, IntI(0)))
+					case lf.sort == SStr:
+						allDefault = And(allDefault, Eq(lf, it.litTerm("")))
+					default:
+						allDefault = And(allDefault, Eq(lf, BVu(lf.w, 0)))
+					}
+				}
+				it.p.assertAxiom(Eq(Eq(l, BVu(64, 0)), allDefault))
+			} else {
+				it.p.assertAxiom(Not(Eq(l, BVu(64, 0))))
+			}
+		}
 		return t
 	}
 	if cs, ok := s.concreteString(); ok {
@@ -131,6 +152,11 @@ func (it *Interp) strConcat(a, b *StrV) *StrV {
 		n.Nil = false
 		return &n
 	}
+	return it.strConcatA(a, b)
+}
+
+// strConcatA always builds the opaque concatenation term.
+func (it *Interp) strConcatA(a, b *StrV) *StrV {
 	ta, tb := it.toA(a), it.toA(b)
 	t := App("concat", SStr, ta, tb)
 	if !it.p.lenAx[t.id] {
